@@ -80,6 +80,14 @@ CONTRACTS.append(Contract(
     note="floor division by a positive divisor, any dividend; nonlinear: discharged in isolation",
 ))
 
+CONTRACTS.append(Contract(
+    MODULE, "lemma_divmod_negdiv",
+    params={"d": T.Int, "b": T.Int},
+    requires=["b <= 0 - 1"],
+    ensures=[("euclid", "d == b * (d // b) + d % b"), ("range", "b < d % b and d % b <= 0"), ("sign", "implies(d > 0, d // b <= 0 - 1) and implies(d <= 0, d // b >= 0)")],
+    note="Python floor division by a negative divisor (the remainder takes the divisor's sign); nonlinear: discharged in isolation",
+))
+
 _ID = lambda m: f"(({m}) * c + (({m}) if ({m}) < r else r))"
 CONTRACTS.append(Contract(
     MODULE, "lemma_ideal_mono",
